@@ -103,7 +103,8 @@ Record regs_at (m : mem) (pb : block) (lb : list Z) (R : RegDefs.regs) : Prop :=
   ra_ints : ints_ok lb;
   ra_lit : str_at m G_lit__0 [];
   ra_cell : forall c, (c < 256)%nat -> reg_cell m (cellp pb c) (nthz lb (Z.of_nat c)) (R (N.of_nat c));
-  ra_inj : forall c c' b, (c < 256)%nat -> (c' < 256)%nat -> cellp pb c = VPtr b 0 -> cellp pb c' = VPtr b 0 -> c = c'
+  ra_inj : forall c c' b, (c < 256)%nat -> (c' < 256)%nat -> cellp pb c = VPtr b 0 -> cellp pb c' = VPtr b 0 -> c = c';
+  ra_glob : (length cglobals <= length m)%nat          (* the program's global blocks come first *)
 }.
 Definition regs_rep (m : mem) (R : RegDefs.regs) : Prop := exists pb lb, regs_at m pb lb R.
 
@@ -325,4 +326,124 @@ Proof.
   destruct (Z.ltb_spec c 0); [reflexivity|].
   replace (nth_error pb (Z.to_nat c)) with (@None val); [reflexivity|]. symmetry. apply nth_error_None.
   rewrite (ra_blen _ _ _ _ H). lia.
+Qed.
+
+(* ------------------------------------------------------------------ the memory after reg_putraw represents the model's register file *)
+Lemma cell_live m pb lb R c b o : regs_at m pb lb R -> (c < 256)%nat -> cellp pb c = VPtr b o ->
+  o = 0 /\ heap_blk b /\ (b < length m)%nat /\
+  exists s l, R (N.of_nat c) = Some (s, l) /\ str_at m b s /\ nonul s /\ str_fits s /\ l = negb (nthz lb (Z.of_nat c) =? 0).
+Proof.
+  intros H Hc E. pose proof (ra_cell _ _ _ _ H c Hc) as Hr. destruct (R (N.of_nat c)) as [[s l]|]; cbn [reg_cell] in Hr.
+  - destruct Hr as (b' & E' & Hh & Hs & Hn & Hf & Hl). rewrite E in E'. injection E' as -> ->.
+    repeat split; try assumption. { apply nth_error_Some. unfold str_at in Hs. congruence. }
+    exists s, l. repeat split; assumption.
+  - rewrite E in Hr. discriminate.
+Qed.
+Lemma cellp_upd pb lc v c : (lc < length pb)%nat -> cellp (upd pb lc v) c = if Nat.eqb c lc then v else cellp pb c.
+Proof. intro H. unfold cellp. apply nth_upd. exact H. Qed.
+Lemma nthz_upd lb lc z c : (lc < length lb)%nat -> nthz (upd lb lc z) (Z.of_nat c) = if Nat.eqb c lc then z else nthz lb (Z.of_nat c).
+Proof. intro H. unfold nthz. rewrite Nat2Z.id. apply nth_upd. exact H. Qed.
+
+(* the blocks of putraw_mem *)
+Lemma putraw_mem_blocks m pb lb R lc txt ln : regs_at m pb lb R -> (lc < 256)%nat ->
+  let m' := putraw_mem m pb lb lc txt ln in
+  nth_error m' G_reg__bufs = Some (upd pb lc (VPtr (length m) 0)) /\
+  nth_error m' G_lnmode = Some (map VInt (upd lb lc ln)) /\
+  nth_error m' (length m) = Some (cstr_block (zb txt)) /\
+  length m' = S (length m) /\
+  (forall b o, cellp pb lc = VPtr b o -> nth_error m' b = Some []) /\
+  (forall b, (b < length m)%nat -> b <> G_reg__bufs -> b <> G_lnmode -> (forall o, cellp pb lc <> VPtr b o) -> nth_error m' b = nth_error m b).
+Proof.
+  intros H Hlc m'. destruct globals_small as (G0 & G1 & G2 & G3 & G4 & G5).
+  pose proof (ra_glob _ _ _ _ H) as Hg.
+  set (m3 := m ++ [cstr_block (zb txt)]).
+  assert (L3 : length m3 = S (length m)) by (unfold m3; rewrite app_length; cbn; lia).
+  set (m4 := free_cell (cellp pb lc) m3).
+  assert (L4 : length m4 = S (length m)).
+  { unfold m4. destruct (cellp pb lc) as [|z|b o] eqn:E; cbn [free_cell]; try exact L3.
+    destruct (cell_live m pb lb R lc b o H Hlc E) as (_ & _ & Hb & _). rewrite upd_length by lia. exact L3. }
+  assert (B4 : forall b, (forall o, cellp pb lc <> VPtr b o) -> nth_error m4 b = nth_error m3 b).
+  { intros b Hb. unfold m4. destruct (cellp pb lc) as [|z|b0 o] eqn:E; cbn [free_cell]; try reflexivity.
+    destruct (cell_live m pb lb R lc b0 o H Hlc E) as (_ & _ & Hb0 & _).
+    apply mem_upd_other; [lia|]. intro. subst b0. apply (Hb o). reflexivity. }
+  assert (F4 : forall b o, cellp pb lc = VPtr b o -> nth_error m4 b = Some []).
+  { intros b o E. unfold m4. rewrite E. cbn [free_cell].
+    destruct (cell_live m pb lb R lc b o H Hlc E) as (_ & _ & Hb0 & _). apply mem_upd_same. lia. }
+  assert (NG : forall b o, cellp pb lc = VPtr b o -> (length cglobals <= b < length m)%nat).
+  { intros b o E. destruct (cell_live m pb lb R lc b o H Hlc E) as (_ & Hh & Hb0 & _). unfold heap_blk in Hh. lia. }
+  unfold m', putraw_mem. fold m3. fold m4.
+  set (m5 := upd m4 G_reg__bufs _).
+  assert (L5 : length m5 = S (length m)) by (unfold m5; rewrite upd_length by lia; exact L4).
+  repeat split.
+  - rewrite mem_upd_other by (try lia; congruence). unfold m5. apply mem_upd_same. lia.
+  - apply mem_upd_same. lia.
+  - rewrite mem_upd_other by lia. unfold m5. rewrite mem_upd_other by lia.
+    rewrite B4 by (intros o E; specialize (NG _ _ E); lia). unfold m3. apply nth_error_app_new.
+  - rewrite upd_length by lia. exact L5.
+  - intros b o E. specialize (NG _ _ E). rewrite mem_upd_other by lia. unfold m5. rewrite mem_upd_other by lia. apply (F4 b o E).
+  - intros b Hb N1 N2 Hc. rewrite mem_upd_other by (try lia; congruence). unfold m5. rewrite mem_upd_other by (try lia; congruence).
+    rewrite (B4 b Hc). unfold m3. apply nth_error_app_old. exact Hb.
+Qed.
+
+Lemma pre_of_nonul m pb lb R c : regs_at m pb lb R -> 0 <= c < 256 -> nonul (pre_of R c).
+Proof.
+  intros H Hc. unfold pre_of. destruct (ct_isupper c); [|constructor].
+  pose proof (lowz_range c Hc) as Hlc.
+  pose proof (ra_cell _ _ _ _ H (Z.to_nat (lowz c)) ltac:(lia)) as Hr. rewrite Z_nat_N in Hr.
+  destruct (R (Z.to_N (lowz c))) as [[t l]|]; [|constructor]. cbn [reg_cell] in Hr.
+  destruct Hr as (b & _ & _ & _ & Hn & _). exact Hn.
+Qed.
+Lemma nonul_app (a b : bytes) : nonul a -> nonul b -> nonul (a ++ b).
+Proof. intros Ha Hb. unfold nonul. apply Forall_app. split; assumption. Qed.
+
+(* the model's reg_putraw, read through the keys 0..255 *)
+Lemma model_putraw R c s l k : 0 <= c < 256 ->
+  RegDefs.reg_putraw R (Z.to_N c) s l (N.of_nat k) =
+  if Nat.eqb k (Z.to_nat (lowz c)) then Some (pre_of R c ++ s, l) else R (N.of_nat k).
+Proof.
+  intro Hc. pose proof (lowz_range c Hc) as Hlc. unfold RegDefs.reg_putraw, RegDefs.upd.
+  rewrite tolower_N, isupper_N by lia. unfold pre_of.
+  destruct (Nat.eqb_spec k (Z.to_nat (lowz c))) as [->|Hne].
+  - rewrite Z_nat_N, N.eqb_refl. reflexivity.
+  - destruct (N.eqb_spec (N.of_nat k) (Z.to_N (lowz c))) as [E|_]; [exfalso; lia|reflexivity].
+Qed.
+
+Theorem putraw_mem_rep m pb lb R c (s : bytes) ln : regs_at m pb lb R -> 0 <= c < 256 -> nonul s -> int_ok ln ->
+  str_fits (pre_of R c ++ s) ->
+  regs_at (putraw_mem m pb lb (Z.to_nat (lowz c)) (pre_of R c ++ s) ln)
+          (upd pb (Z.to_nat (lowz c)) (VPtr (length m) 0)) (upd lb (Z.to_nat (lowz c)) ln)
+          (RegDefs.reg_putraw R (Z.to_N c) s (negb (ln =? 0))).
+Proof.
+  intros H Hc Hs Hln Hfit. pose proof (lowz_range c Hc) as Hlc. set (lc := Z.to_nat (lowz c)) in *.
+  assert (Hlc' : (lc < 256)%nat) by (unfold lc; lia).
+  destruct globals_small as (G0 & G1 & G2 & G3 & G4 & G5). pose proof (ra_glob _ _ _ _ H) as Hg.
+  pose proof (ra_blen _ _ _ _ H) as Hbl. pose proof (ra_llen _ _ _ _ H) as Hll.
+  destruct (putraw_mem_blocks m pb lb R lc (pre_of R c ++ s) ln H Hlc') as (B1 & B2 & B3 & B4 & B5 & B6).
+  set (m' := putraw_mem m pb lb lc (pre_of R c ++ s) ln) in *.
+  (* a block a register other than lc points to is unchanged *)
+  assert (Keep : forall k b o, (k < 256)%nat -> k <> lc -> cellp pb k = VPtr b o -> nth_error m' b = nth_error m b).
+  { intros k b o Hk Hne E. destruct (cell_live m pb lb R k b o H Hk E) as (-> & Hh & Hb & _). unfold heap_blk in Hh.
+    apply B6; [exact Hb|lia|lia|]. intros o' E'.
+    destruct (cell_live m pb lb R lc b o' H Hlc' E') as (-> & _). apply Hne. exact (ra_inj _ _ _ _ H k lc b Hk Hlc' E E'). }
+  constructor.
+  - exact B1.
+  - rewrite upd_length by lia. exact Hbl.
+  - exact B2.
+  - rewrite upd_length by lia. exact Hll.
+  - apply ints_ok_upd; [exact (ra_ints _ _ _ _ H)|exact Hln].
+  - unfold str_at. rewrite B6; [exact (ra_lit _ _ _ _ H)|lia|congruence|congruence|].
+    intros o E. destruct (cell_live m pb lb R lc _ o H Hlc' E) as (_ & Hh & _). unfold heap_blk in Hh. lia.
+  - intros k Hk. rewrite cellp_upd, nthz_upd, model_putraw by lia. fold lc.
+    destruct (Nat.eqb_spec k lc) as [->|Hne].
+    + cbn [reg_cell]. exists (length m). repeat split; try assumption.
+      apply nonul_app; [exact (pre_of_nonul m pb lb R c H Hc)|exact Hs].
+    + pose proof (ra_cell _ _ _ _ H k Hk) as Hr. destruct (R (N.of_nat k)) as [[t l]|]; cbn [reg_cell] in Hr |- *; [|exact Hr].
+      destruct Hr as (b & E & Hh & Hst & Hn & Hf & Hl). exists b. repeat split; try assumption.
+      unfold str_at. rewrite (Keep k b 0 Hk Hne E). exact Hst.
+  - intros k k' b Hk Hk' E E'. rewrite cellp_upd in E, E' by lia.
+    destruct (Nat.eqb_spec k lc) as [->|Hne]; destruct (Nat.eqb_spec k' lc) as [->|Hne']; try reflexivity.
+    + injection E as <-. destruct (cell_live m pb lb R k' _ 0 H Hk' E') as (_ & _ & Hb & _). lia.
+    + injection E' as <-. destruct (cell_live m pb lb R k _ 0 H Hk E) as (_ & _ & Hb & _). lia.
+    + exact (ra_inj _ _ _ _ H k k' b Hk Hk' E E').
+  - rewrite B4. lia.
 Qed.
